@@ -1137,6 +1137,162 @@ func runC10RoundTrip(c *Case) {
 	}
 }
 
+// ---------------------------------------------------------------- names of 252..255 bytes
+
+// longName makes a name of exactly n bytes that starts with the given tag.
+func longName(r *RNG, tag string, n int) string {
+	const al = "abcdefghijklmnopqrstuvwxyzABCDEFGHIJKLMNOPQRSTUVWXYZ0123456789 -_."
+	b := []byte(tag)
+	for len(b) < n {
+		b = append(b, al[r.Intn(len(al))])
+	}
+	b = b[:n]
+	if b[n-1] == ' ' || b[n-1] == '.' {
+		b[n-1] = 'x'
+	}
+	return string(b)
+}
+
+// maxUploadFileName: a file is received under <name>.incomplete, which must itself fit NAME_MAX (255).
+const maxUploadFileName = 255 - len(".incomplete")
+
+// runC10LongNames: folder names of 252, 253, 254 and 255 bytes (the one-byte length of a path item at
+// its limit; 3+len wraps in byte arithmetic from 253 on), nested inside each other, holding files whose
+// names are as long as an upload allows (244 bytes) — uploaded, then downloaded; and a tree stored on
+// disk whose FILE names are 252..255 bytes long, downloaded.
+func runC10LongNames(c *Case) {
+	r := c.R
+	ts, err := newTS(TSOpt{Direct: true, PreserveForks: r.Chance(30)})
+	if err != nil {
+		return
+	}
+	set := &transferSet{ts: ts, x: c.X}
+	defer func() {
+		if !set.waitAll() {
+			c.Violation("transfer-handler-hangs", "a transfer handler did not return")
+		}
+		ts.Close()
+	}()
+	cc, _ := ts.DirectClient("admin", []byte("admin"), "127.0.0.1:1234")
+	e := &c10Env{c: c, ts: ts, set: set, cc: cc, id: 1500}
+	mkFile := func(name string) *tnode {
+		return &tnode{name: name, file: &diskFile{Name: name, ReqName: []byte(name), Data: genData(r, r.Pick(0, 1, 300, r.Intn(5000))), ModTime: randModTime(r)}}
+	}
+	lens := []int{252, 253, 254, 255}
+	// --- upload, then download
+	tree := &tnode{name: "t", isDir: true}
+	tree.kids = append(tree.kids, mkFile(longName(r, "top-", maxUploadFileName)), mkFile("plain.txt"))
+	for i, L := range lens {
+		inner := &tnode{name: longName(r, fmt.Sprintf("in%d-", L), lens[(i+1+r.Intn(3))%4]), isDir: true,
+			kids: []*tnode{mkFile("g"), mkFile(longName(r, "deep-", maxUploadFileName-r.Intn(3)))}}
+		d := &tnode{name: longName(r, fmt.Sprintf("d%d-", L), L), isDir: true,
+			kids: []*tnode{mkFile("f.txt"), mkFile(longName(r, "f-", maxUploadFileName)), inner}}
+		if r.Chance(30) {
+			d.kids = append(d.kids, &tnode{name: longName(r, "empty-", lens[r.Intn(4)]), isDir: true})
+		}
+		tree.kids = append(tree.kids, d)
+	}
+	folder := fmt.Sprintf("long-%d", r.Intn(1000))
+	var items []*upItemSpec
+	flattenItems(tree, nil, r, &items)
+	expect := map[string][]byte{}
+	for _, it := range items {
+		if !it.isDir {
+			expect[it.key] = it.data
+		}
+	}
+	if ok, _ := e.uploadSession(folder, items, -1, 0, expect, "names of 252..255 bytes"); !ok {
+		return
+	}
+	_, final, _, dirs, _ := diskStore(filepath.Join(ts.Root, folder))
+	for _, it := range items {
+		maxSeg := 0
+		for _, cp := range it.comps {
+			if len(cp) > maxSeg {
+				maxSeg = len(cp)
+			}
+		}
+		missing := false
+		if it.isDir {
+			missing = !dirs[it.key]
+		} else {
+			b, has := final[it.key]
+			missing = !has || !bytesEq(b, it.data)
+		}
+		if missing {
+			c.Note("item_path_segment_lengths", func() []int {
+				var l []int
+				for _, cp := range it.comps {
+					l = append(l, len(cp))
+				}
+				return l
+			}())
+			c.Note("item_is_folder", it.isDir)
+			c.Note("items_streamed", len(items))
+			c.Note("longest_segment", maxSeg)
+			c.Violation("long-item-name-upload-fails", fmt.Sprintf("a folder upload streaming names of 252..255 bytes did not recreate item %d of %d (longest path segment of the item: %d bytes)", indexOfItem(items, it)+1, len(items), maxSeg))
+			break
+		}
+	}
+	c.Nontrivial(fmt.Sprintf("long-upload|%d", len(items)))
+	c.Dist("long-names/upload")
+	// what is on disk now, downloaded again
+	tree.name = folder
+	var fix func(t *tnode, dir string)
+	fix = func(t *tnode, dir string) {
+		p := filepath.Join(dir, t.name)
+		if !t.isDir {
+			if st, err := os.Stat(p); err == nil {
+				t.file.ModTime = st.ModTime()
+			}
+			t.file.Dir = dir
+			if ts.Srv.Config.PreserveResourceForks {
+				// the upload stored the client's information fork and an (empty or sent) resource fork
+				for _, it := range items {
+					if !it.isDir && filepath.Join(ts.Root, folder, filepath.FromSlash(it.key)) == p {
+						i := it.info
+						t.file.Info, t.file.InfoRaw = &i, i.encode()
+						t.file.HasRsrc, t.file.Rsrc = true, []byte{}
+						if it.fc == 3 {
+							t.file.Rsrc = it.rsrc
+						}
+					}
+				}
+			}
+			return
+		}
+		for _, k := range t.kids {
+			fix(k, p)
+		}
+	}
+	fix(tree, ts.Root)
+	e.id++
+	c10DownloadOnce(c, ts, set, cc, e.id, tree, nil, 0)
+	// --- a stored tree whose file names are 252..255 bytes long (no side files fit next to them), downloaded
+	stored := &tnode{name: fmt.Sprintf("stored-%d", r.Intn(1000)), isDir: true}
+	for _, L := range lens {
+		stored.kids = append(stored.kids, mkFile(longName(r, fmt.Sprintf("file%d-", L), L)))
+		stored.kids = append(stored.kids, &tnode{name: longName(r, fmt.Sprintf("dir%d-", L), L), isDir: true,
+			kids: []*tnode{mkFile(longName(r, "x-", lens[r.Intn(4)])), mkFile("y")}})
+	}
+	if writeTree(stored, ts.Root) == nil {
+		for _, mode := range []int{0, 1} {
+			e.id++
+			c10DownloadOnce(c, ts, set, cc, e.id, stored, nil, mode)
+		}
+		c.Dist("long-names/download")
+	}
+}
+
+func indexOfItem(items []*upItemSpec, it *upItemSpec) int {
+	for i, x := range items {
+		if x == it {
+			return i
+		}
+	}
+	return -1
+}
+
 // runC10Regressions replays the witnesses of the three defects repaired in /repo (fef72d3, 6c1e410, 6ca3f0f) on every run.
 func runC10Regressions(c *Case) {
 	r := c.R
@@ -1183,13 +1339,15 @@ func runC10Regressions(c *Case) {
 
 func init() {
 	props["C10"] = func(x *Ctx) {
-		x.rule = "folder-download: 4 trees per case (depth ≤ 4, fan-out ≤ 5, ≤ 60 entries — 30% of the cases one tree with fan-out ≤ 7 and up to 150 entries —, empty folders, dot-files and dot-folders with visible entries below them, names chosen to separate per-directory byte order from whole-path order, file sizes 0..100 KiB (thorough 200 KiB), optional .info_/.rsrc_ side files, requested at the root or one level down), each downloaded under 3 action scripts (all send; mixed send/resume/next; resume-heavy or all next; resume offsets 0,1,size-1,size,random; 12% of the runs the client disconnects at an item header or after a file). folder-upload: 4 client trees per case streamed in client order into an empty, partly or largely pre-populated folder (existing folders, complete files with equal or other contents, partial files holding a prefix), 45% cut inside a file item (before the size, inside the header, at header end ±1, mid data, last byte) followed by a second complete session. folder-roundtrip: upload into an empty folder, then download with all-send. non-trivial = a file item whose bytes were transferred (download) / a session that streamed at least one item (upload); distinct = distinct (path, size, action, fork combination) resp. (items, pre-population, cut)"
+		x.rule = "folder-download: 4 trees per case (depth ≤ 4, fan-out ≤ 5, ≤ 60 entries — 30% of the cases one tree with fan-out ≤ 7 and up to 150 entries —, empty folders, dot-files and dot-folders with visible entries below them, names chosen to separate per-directory byte order from whole-path order, file sizes 0..100 KiB (thorough 200 KiB), optional .info_/.rsrc_ side files, requested at the root or one level down), each downloaded under 3 action scripts (all send; mixed send/resume/next; resume-heavy or all next; resume offsets 0,1,size-1,size,random; 12% of the runs the client disconnects at an item header or after a file). folder-upload: 4 client trees per case streamed in client order into an empty, partly or largely pre-populated folder (existing folders, complete files with equal or other contents, partial files holding a prefix), 45% cut inside a file item (before the size, inside the header, at header end ±1, mid data, last byte) followed by a second complete session. folder-roundtrip: upload into an empty folder, then download with all-send. long-names: folders named with 252, 253, 254 and 255 bytes (nested, with files named with up to 244 bytes = NAME_MAX minus the .incomplete suffix) uploaded and downloaded again, and stored files named with 252..255 bytes downloaded. non-trivial = a file item whose bytes were transferred (download) / a session that streamed at least one item (upload); distinct = distinct (path, size, action, fork combination) resp. (items, pre-population, cut)"
 		x.assume = []string{
 			"root folder names are visible (no leading dot); names ending in .incomplete or starting with .info_/.rsrc_ are not generated (the on-disk naming scheme cannot tell them from partial/side files)",
 			"resume of a file with a stored resource fork, and a resource fork without an information fork, are compared with the model as coded (DESIGN §7 C08 'not covered': resume of the resource fork); the size-prefix clause is judged directly only without a stored resource fork or for 'send'",
 			"folder upload item paths are plain names (cleaning of hostile paths is C07's subject)",
+			"uploaded FILE names are at most 244 bytes: the server receives a file under <name>.incomplete, which must fit the file system's 255-byte name limit; folder names and stored (downloaded) file names go up to 255",
 		}
 		x.Add(&Family{Name: "regressions", Quick: 1, Thor: 1, Run: runC10Regressions})
+		x.Add(&Family{Name: "long-names", Quick: 8, Thor: 48, Run: runC10LongNames})
 		x.Add(&Family{Name: "folder-download", Quick: 48, Thor: 640, Run: runC10Download})
 		x.Add(&Family{Name: "folder-upload", Quick: 48, Thor: 640, Run: runC10Upload})
 		x.Add(&Family{Name: "folder-roundtrip", Quick: 32, Thor: 320, Run: runC10RoundTrip})
